@@ -12,11 +12,11 @@ TIMEOUT_S = 900
 RULE = ('cases = (array rank d, global shape, process grid, layout-set family, payload dtype, buf given/not); inside a case '
         'every ordered (source,dest) pair incl. source==dest is executed on every simulated rank with arrays of exactly '
         'bufferSize whose dead parts are poisoned; oracle = exact equality with the slice of the global array 1+ravel(g) '
-        '(and bit-identical source when buf is given); with buf given every pair is requested twice on the same handler; an evaluation is one (case, pair); non-trivial = the pair needs '
+        '(and bit-identical source when buf is given); every pair is requested twice on the same handler, the second time with a field that is exactly zero on half of every axis; an evaluation is one (case, pair); non-trivial = the pair needs '
         'communication (a distributed position with >1 process changes its dimension) and some distributed extent is not '
         'divisible by its process count; sets the constructor rejects ("could not be connected") are counted separately')
 ASSUMPTIONS = ['simmpi Alltoall / Create_cart / Sub semantics', 'rank-local code is atomic between MPI calls',
-               'data movement is value independent, so one injective global pattern per dtype decides all values']
+               'data movement is meant to be value independent: one injective global pattern per dtype plus one pattern with exactly-zero bands (a value-dependent shortcut would have to key on something)']
 
 PHYS = {'flux_surface': [0, 3, 1, 2], 'v_parallel': [0, 2, 1, 3], 'poloidal': [3, 2, 1, 0]}
 
@@ -136,19 +136,26 @@ def run_case(case):
     G = lay.global_array(shape, dtype)
     eta = lay.eta_for(shape)
     names = list(L)
-    pairs = [(a, b) for a in names for b in names]
+    pairs = [(a, b, 0) for a in names for b in names]
     P = lay.poison_value(dtype)
     usebuf = case['buf']
-    if usebuf:
-        # every ordered pair is requested a second time on the same handler (in reverse order of visit): nothing a transpose
-        # leaves behind in the handler (route tables, scratch state) may change the next one
-        pairs = pairs + pairs[::-1]
+    # every ordered pair is requested a second time on the same handler (in reverse order of visit): nothing a transpose
+    # leaves behind in the handler (route tables, scratch state) may change the next one.  The second pass moves a field
+    # that is exactly zero on half of every axis (whole sender-by-receiver tiles vanish): the movement must not look at values
+    pairs = pairs + [(a, b, 1) for (a, b, _) in pairs[::-1]]
+    G0 = G
+    Z = G.copy()
+    for ax in range(Z.ndim):
+        sl = [slice(None)] * Z.ndim
+        sl[ax] = slice(0, max(1, Z.shape[ax] // 2)) if ax % 2 == 0 else slice(Z.shape[ax] // 2, None)
+        Z[tuple(sl)] = 0
 
     def make_ctx(r):
         return getLayoutHandler(MPI.COMM_WORLD, L, nprocs, eta)
 
     def do_item(h, pair):
-        a, b = pair
+        a, b, pat = pair
+        G = Z if pat else G0
         la, lb = h.getLayout(a), h.getLayout(b)
         n = h.bufferSize + int(case.get('oversize', 0))      # arrays may be larger than bufferSize (transpose only requires >=)
         src = np.full(n, P, dtype=dtype)
@@ -178,7 +185,7 @@ def run_case(case):
     uneven = any(shape[L[nm][pos]] % n for nm in names for pos, n in enumerate(nprocs) if n > 1)
     nontriv = 0
     seen = {}
-    for i, (a, b) in enumerate(pairs):
+    for i, (a, b, pat) in enumerate(pairs):
         comm = any(n > 1 and L[a][pos] != L[b][pos] for pos, n in enumerate(nprocs))
         if comm:
             stats['pairs_with_communication'] += 1
